@@ -2,10 +2,12 @@ package main
 
 import (
 	"bufio"
+	"bytes"
 	"encoding/json"
 	"fmt"
 	"os"
 	"os/exec"
+	"strings"
 	"sync"
 )
 
@@ -48,6 +50,7 @@ type worker struct {
 	cmd *exec.Cmd
 	in  *bufio.Writer
 	out *bufio.Reader
+	err *bytes.Buffer
 }
 
 func startWorker() (*worker, error) {
@@ -56,7 +59,8 @@ func startWorker() (*worker, error) {
 		return nil, err
 	}
 	cmd := exec.Command(exe, "-c07worker")
-	cmd.Stderr = os.Stderr
+	errBuf := &bytes.Buffer{}
+	cmd.Stderr = errBuf
 	ip, err := cmd.StdinPipe()
 	if err != nil {
 		return nil, err
@@ -68,7 +72,7 @@ func startWorker() (*worker, error) {
 	if err := cmd.Start(); err != nil {
 		return nil, err
 	}
-	return &worker{cmd, bufio.NewWriter(ip), bufio.NewReaderSize(op, 1<<20)}, nil
+	return &worker{cmd, bufio.NewWriter(ip), bufio.NewReaderSize(op, 1<<20), errBuf}, nil
 }
 
 func (w *worker) run(scn *Scn) (*wResult, error) {
@@ -87,6 +91,28 @@ func (w *worker) run(scn *Scn) (*wResult, error) {
 		return nil, err
 	}
 	return &res, nil
+}
+
+// died collects what the dead worker wrote to stderr (first lines: the panic / fatal error message).
+func (w *worker) died() string {
+	w.cmd.Wait()
+	var keep []string
+	for _, l := range strings.Split(w.err.String(), "\n") {
+		l = strings.TrimSpace(l)
+		if l == "" {
+			continue
+		}
+		if strings.HasPrefix(l, "panic:") || strings.HasPrefix(l, "fatal error:") || strings.Contains(l, "modules.") {
+			keep = append(keep, strings.ReplaceAll(l, " ", "_"))
+		}
+		if len(keep) >= 4 {
+			break
+		}
+	}
+	if len(keep) == 0 {
+		return "no-message"
+	}
+	return strings.Join(keep, ";")
 }
 
 func (w *worker) stop() {
@@ -131,28 +157,26 @@ func runAll(scns []*Scn, k int, maxUnclean int, sinkFn func(i int, scn *Scn, res
 					continue
 				}
 				var res *wResult
-				for attempt := 0; attempt < 3 && res == nil; attempt++ {
-					if w == nil {
-						var err error
-						if w, err = startWorker(); err != nil {
-							fmt.Fprintln(os.Stderr, "hx-c07: cannot start worker:", err)
-							os.Exit(3)
-						}
+				if w == nil {
+					var err error
+					if w, err = startWorker(); err != nil {
+						fmt.Fprintln(os.Stderr, "hx-c07: cannot start worker:", err)
+						os.Exit(3)
 					}
-					r, err := w.run(scns[i])
-					if err != nil {
-						w.stop()
-						w = nil
-						continue
-					}
+				}
+				r, err := w.run(scns[i])
+				if err != nil {
+					// the process running the real scheduler died: that is an observation, not a harness error
+					msg := w.died()
+					w.stop()
+					w = nil
+					res = &wResult{Lines: []string{scns[i].encode(), "i 0 end worker-died " + msg}, Stat: map[string]int{"worker-died": 1}}
+				} else {
 					res = r
 					if !r.Clean {
 						w.stop()
 						w = nil
 					}
-				}
-				if res == nil {
-					res = &wResult{Lines: []string{scns[i].encode(), "i 0 end worker-failed"}, Stat: map[string]int{"worker-failed": 1}}
 				}
 				mu.Lock()
 				results[i] = res
